@@ -44,6 +44,7 @@ DOCX_FEATURES = {
     "table-cell-multi-para": "table cell with two paragraphs (twin: one paragraph)",
     "empty-section": "a heading directly followed by a heading of the same level, i.e. a section without body text (twin: one paragraph between them)",
     "empty-table": "a table whose cells are all empty between two filled tables (twin: its first cell is filled)",
+    "title-row-gridspan": "a table whose first row is one cell spanning (w:gridSpan) the three columns of the rows below (twin: three cells)",
     "cell-blank-paragraph": "a table cell with three paragraphs, the middle one empty (twin: two paragraphs)",
     "nested-sdt": "block-level content controls nested in a group control, two and three levels deep, around paragraphs and a table (twin: the same blocks in single-level controls)",
 }
@@ -370,6 +371,18 @@ def _docx_feature(feature, twin, rng, tk, exp, unit, words, para, table, image_p
         return xml
     if feature == "text-before-first-heading":
         return ""
+    if feature == "title-row-gridspan":
+        # a ragged table: one title cell spanning the three columns of the body rows (twin: three cells in the title row)
+        title = words("c", 1, 2)
+        rows_xml = [f'<w:tr><w:tc><w:tcPr><w:gridSpan w:val="3"/></w:tcPr><w:p>{_wr(" ".join(title))}</w:p></w:tc></w:tr>' if not twin
+                    else f'<w:tr><w:tc><w:p>{_wr(" ".join(title))}</w:p></w:tc><w:tc><w:p/></w:tc><w:tc><w:p/></w:tc></w:tr>']
+        grid = [[{"toks": title}] if not twin else [{"toks": title}, {"empty": True}, {"empty": True}]]
+        for _ in range(3):
+            row = [words("c", 1, 1) for _ in range(3)]
+            grid.append([{"toks": t} for t in row])
+            rows_xml.append("<w:tr>" + "".join(f"<w:tc><w:p>{_wr(' '.join(t))}</w:p></w:tc>" for t in row) + "</w:tr>")
+        exp.tables.append({"grid": grid})
+        return '<w:tbl><w:tblPr><w:tblW w:w="0" w:type="auto"/></w:tblPr><w:tblGrid><w:gridCol/><w:gridCol/><w:gridCol/></w:tblGrid>' + "".join(rows_xml) + "</w:tbl>"
     if feature == "cell-blank-paragraph":
         # a cell with three paragraphs of which the middle one is empty (twin: no empty paragraph)
         t = [words("c", 1, 1)[0] for _ in range(4)]
